@@ -129,8 +129,12 @@ class RefReader:
         # kinds of observed component whose source value is non-default while its node is not ON (this step): the
         # situation in which "not ON -> default" actually hides something
         self.masked: set = set()
+        self.fresh = False
         # (host, folder) -> health code published by the last folder scan that ran to completion (signature key only)
         self.folder_pub: Dict[Tuple[str, str], int] = {}
+        # hostname -> was the node ON at the end of the previous step (None right after a reset)
+        self.prev_on: Dict[str, bool] = {}
+        self.tstep = -1  # the timestep number the current step began with (game.step_counter - 1); -1 after a reset
         self.validate()
 
     # -- config ------------------------------------------------------------------------------------------------------
@@ -178,6 +182,7 @@ class RefReader:
     def new_episode(self):
         self.nmne_mem = {}
         self.folder_pub = {}
+        self.prev_on = {}
 
     # -- the reading -------------------------------------------------------------------------------------------------
 
@@ -186,6 +191,13 @@ class RefReader:
         self.pairs = 0
         self.masked = set()
         net = game.simulation.network
+        self.tstep = game.step_counter - 1
+        try:
+            return self._expected(net)
+        finally:
+            self.prev_on = {n.config.hostname: n.operating_state.name == "ON" for n in net.nodes.values()}
+
+    def _expected(self, net) -> Any:
         if self.obs_cfg is None:
             return Leaf(0)
         out = {}
@@ -231,6 +243,15 @@ class RefReader:
         node = self.node_by_name(net, name)
         on = node is not None and node.operating_state.name == "ON"
         live = node if on else None  # every component of a node that is not ON reads as default
+        # A host that was not ON when this step began and is ON now finished booting in this step's tick: requests were
+        # refused while it booted, so nothing has been executed, accessed, created or deleted on it in this step and its
+        # per-step counters encode 0 whatever the simulator's attributes still hold (independent event count = 0).
+        self.fresh = bool(on and self.prev_on.get(name) is False)
+        if self.fresh:
+            self.masked.add("boot-completed-this-step")
+        if node is not None and not on and self.prev_on.get(name) is True:
+            if any(a.num_executions for a in node.applications.values()) or node.file_system.num_file_creations:
+                self.masked.add("boot-left-on-in-a-step-with-counts")
         out: Dict[Any, Any] = {"operating_status": Leaf(NODE_STATE[node.operating_state.name] if node is not None else 0)}
 
         n = o["num_services"] or 0
@@ -260,8 +281,12 @@ class RefReader:
             out["NICS"] = {i + 1: self.nic(live, node, name, i + 1, o) for i in range(n)}
         if o["include_num_access"]:
             fs = live.file_system if live is not None else None
-            out["num_file_creations"] = Leaf(min(fs.num_file_creations, MAX_COUNT) if fs else 0)
-            out["num_file_deletions"] = Leaf(min(fs.num_file_deletions, MAX_COUNT) if fs else 0)
+            if self.fresh:
+                out["num_file_creations"] = Leaf(0, tag="booted-this-step")
+                out["num_file_deletions"] = Leaf(0, tag="booted-this-step")
+            else:
+                out["num_file_creations"] = Leaf(min(fs.num_file_creations, MAX_COUNT) if fs else 0)
+                out["num_file_deletions"] = Leaf(min(fs.num_file_deletions, MAX_COUNT) if fs else 0)
         users = self.users(live)
         if h.get("include_users") is not None:
             if h["include_users"]:
@@ -278,16 +303,24 @@ class RefReader:
             retag(out, "not-on")
         return out
 
-    @staticmethod
-    def users(live) -> Dict:
+    def users(self, live) -> Dict:
         if live is None:
             return {"local_login": Leaf(0), "remote_sessions": Leaf(0)}
         usm = live.software_manager.software.get("user-session-manager")
         if usm is None:
             return {"local_login": Leaf(0), "remote_sessions": Leaf(0)}
+        t = self.tstep
+
+        def alive(sess, timeout) -> bool:
+            # a session times out after `timeout` steps without activity (documented on UserSessionManager): one whose
+            # deadline had passed when this step began is not a login any more, whether or not it was cleaned up
+            return t < 0 or sess.last_active_step + timeout > t
+
+        local = usm.local_session is not None and alive(usm.local_session, usm.local_session_timeout_steps)
+        remote = [x for x in usm.remote_sessions.values() if alive(x, usm.remote_session_timeout_steps)]
         return {
-            "local_login": Leaf(1 if usm.local_session is not None else 0),
-            "remote_sessions": Leaf(min(MAX_COUNT, len(usm.remote_sessions))),
+            "local_login": Leaf(1 if local else 0),
+            "remote_sessions": Leaf(min(MAX_COUNT, len(remote))),
         }
 
     def software(self, live, name: Optional[str], kind: str, requires_scan: bool, node) -> Dict:
@@ -302,13 +335,14 @@ class RefReader:
             src = sw.health_state_visible if requires_scan else sw.health_state_actual
             e = {"operating_status": op, "health_status": SW_HEALTH[src.name]}
             if is_app:
-                e["num_executions"] = bin3(sw.num_executions, self.th["app_executions"])
+                e["num_executions"] = 0 if self.fresh else bin3(sw.num_executions, self.th["app_executions"])
             return e
 
         keys = ["operating_status", "health_status"] + (["num_executions"] if is_app else [])
         # structural key for signatures: the component kind where a kind has its own reporting rule in the code
         op_tag = "ftp" if (not is_app and name in ("ftp-client", "ftp-server")) else ""
-        tags = {"operating_status": op_tag, "health_status": tag, "num_executions": ""}
+        tags = {"operating_status": op_tag, "health_status": tag,
+                "num_executions": "booted-this-step" if getattr(self, "fresh", False) else ""}
         cands = []
         if name is not None and node is not None:
             pool = node.applications if is_app else node.services
@@ -380,7 +414,13 @@ class RefReader:
                 e["health_status"] = Leaf(codes[0], tag=tag, alt=tuple(codes[1:]))
                 if o["include_num_access"]:
                     bins = [bin3(x.num_access, self.th["file_access"]) for x in cands] or [0]
-                    e["num_access"] = Leaf(bins[0], alt=tuple(bins[1:]))
+                    # a folder scan / restore that completes in the very tick the host finishes booting does access files
+                    done_now = any(f.scan_countdown == 0 or f.restore_countdown == 0 or getattr(f, "_scanned_this_step", 0)
+                                   for f in folders)
+                    if self.fresh and not done_now:
+                        e["num_access"] = Leaf(0, tag="booted-this-step")
+                    else:
+                        e["num_access"] = Leaf(bins[0], alt=tuple(bins[1:]))
                 files[i + 1] = e
             out["FILES"] = files
         return out
